@@ -3,11 +3,15 @@
 EXTENDS Watchdog, Json
 CONSTANTS MaxBudget, Rounds
 VARIABLE s
-Mk(b, k, n, j, sy) == [budget |-> b, kind |-> k, n |-> n, j |-> j, sync |-> sy, rounds |-> Rounds, wi |-> 60, ri |-> 30]
+Mk(b, k, n, j, sy) == [budget |-> b, kind |-> k, n |-> n, j |-> j, sync |-> sy, rounds |-> Rounds, wi |-> 60, ri |-> 30, delay |-> 0]
+\* "late": every DWR is answered after `delay` ms, later than the watchdog interval but well inside
+\* the retransmission interval (a configuration with RetransmitInterval > WatchdogInterval)
+Late(b) == [budget |-> b, kind |-> "all", n |-> 0, j |-> 0, sync |-> FALSE, rounds |-> Rounds, wi |-> 30, ri |-> 240, delay |-> 90]
 Init == s \in {Mk(b, "all", 0, 0, sy) : b \in 0..MaxBudget, sy \in BOOLEAN}
          \cup {Mk(b, "stop_after", n, 0, sy) : b \in 0..MaxBudget, n \in 1..2, sy \in BOOLEAN}
          \cup {Mk(b, "only_retx", 0, j, sy) : b \in 1..MaxBudget, j \in 2..(MaxBudget + 1), sy \in BOOLEAN}
          \cup {Mk(b, k, 0, 0, FALSE) : b \in 0..MaxBudget, k \in {"fail", "none"}}
+         \cup {Late(b) : b \in 0..1}
 Next == UNCHANGED s
 Canon == s.kind = "only_retx" => s.j <= s.budget + 1
 \* R1: the expectation is total and bounded
